@@ -176,7 +176,7 @@ func genC06(t *rapid.T) AxisCase {
 			steps = append(steps[:pos], append([]Step{{T: "abs", Sub: "Touchpad", Code: a.Code, Val: r}}, steps[pos:]...)...)
 		}
 	}
-	return AxisCase{D: d, Steps: steps}
+	return AxisCase{D: d, Steps: steps, Logs: rapid.IntRange(0, 7).Draw(t, "logs") == 0}
 }
 
 func derefOr(p *int, def int) int {
@@ -297,7 +297,7 @@ func genC07(t *rapid.T) AxisCase {
 		}
 		steps = append(steps, Step{T: "abs", Sub: a.Sub, Code: a.Code, Val: int32(r)})
 	}
-	return AxisCase{D: d, Steps: steps}
+	return AxisCase{D: d, Steps: steps, Logs: rapid.IntRange(0, 7).Draw(t, "logs") == 0}
 }
 
 func genC08(t *rapid.T) AxisCase {
@@ -381,7 +381,7 @@ func genC08(t *rapid.T) AxisCase {
 		r := math.Round(lo + (hi-lo)*f)
 		steps = append(steps, Step{T: "abs", Sub: a.Sub, Code: a.Code, Val: int32(r)})
 	}
-	return AxisCase{D: d, Steps: steps}
+	return AxisCase{D: d, Steps: steps, Logs: rapid.IntRange(0, 7).Draw(t, "logs") == 0}
 }
 
 func TestC06(t *testing.T) { ReplayOrRapid(t, NewRun(t, "C06"), checkC06, genC06) }
